@@ -39,7 +39,7 @@ def _cfg(tier):
                profile="falsy" if "falsy_values" not in avoid else "clean", max_depth=2,
                allow_nested_not="not_under_not" not in avoid, allow_empty_cond=False,
                select="any", desc=("entity", "set_of"), force_relate=True, noise=False,
-               dom_kinds=("list",), avoid=frozenset(avoid), kw_vars=(1, 6))
+               dom_kinds=("list",), avoid=frozenset(avoid), kw_vars=(1, 6), earlier_sharing=(1, 5))
 
 
 @st.composite
